@@ -662,7 +662,7 @@ impl<'c, 's> Run<'c, 's> {
         if !self.ch.chance(self.prof.forge_valid_pc, 100) {
             let k = 1 + self.ch.choose(2);
             for _ in 0..k {
-                match self.ch.choose(12) {
+                match self.ch.choose(13) {
                     0 => fg.b4 = self.vbyte(),
                     1 => fg.b4 = 0x01 | (1 << (4 + self.ch.choose(4))),
                     2 => fg.b4 = self.ch.choose(16) as u8,
@@ -686,11 +686,20 @@ impl<'c, 's> Run<'c, 's> {
                     8 => fg.good_pec = false,
                     9 => fg.src_eid = self.vbyte(),
                     10 => fg.dest_eid = self.vbyte(),
-                    _ => {
+                    11 => {
                         let l = fg.body.len();
                         if l > 0 {
                             let cut = self.ch.choose(l as u32) as usize;
                             fg.body.truncate(cut);
+                        }
+                    }
+                    _ => {
+                        // header-role confusion (round 6): any other combination of the Rq / D /
+                        // reserved bits on an otherwise request- or response-shaped body, e.g. a
+                        // Set-EID-shaped body under Rq=0/D=1
+                        if !fg.body.is_empty() {
+                            fg.body[0] ^= ((1 + self.ch.choose(7)) as u8) << 5;
+                            self.st.probe("forged-control-flag-combination");
                         }
                     }
                 }
